@@ -181,6 +181,12 @@ KF14(impl, st, c) ==
                        \/ (c.op \in {"link", "rename"} /\ viaFile(c.q)))
     THEN {Dev("KF14", Fail("ENOENT", st), "ok", FALSE)} ELSE {}
 
+(* KF21  Seek on a directory handle returns 0 and does nothing (MemFS, OrefaFS): os.File.Seek returns the
+         requested offset, and Seek(0, 0) rewinds the directory. *)
+KF21(impl, st, c) ==
+    IF Both(impl) /\ c.op = "seek" /\ ValidH(st, c) /\ H(st, c).open /\ H(st, c).dir
+    THEN {Dev("KF21", Ok(st), "ok", FALSE)} ELSE {}
+
 \* DEVIATIONS-END
 
 KFTable(impl, st, c) ==
@@ -188,9 +194,9 @@ KFTable(impl, st, c) ==
      KF04 |-> KF04(impl, st, c), KF05 |-> KF05(impl, st, c), KF06 |-> KF06(impl, st, c),
      KF07 |-> KF07(impl, st, c), KF08 |-> KF08(impl, st, c), KF10 |-> KF10(impl, st, c),
      KF11 |-> KF11(impl, st, c), KF12 |-> KF12(impl, st, c), KF13 |-> KF13(impl, st, c),
-     KF14 |-> KF14(impl, st, c)]
+     KF14 |-> KF14(impl, st, c), KF21 |-> KF21(impl, st, c)]
 
-AllKF == {"KF01", "KF02", "KF03", "KF04", "KF05", "KF06", "KF07", "KF08", "KF10", "KF11", "KF12", "KF13", "KF14"}
+AllKF == {"KF01", "KF02", "KF03", "KF04", "KF05", "KF06", "KF07", "KF08", "KF10", "KF11", "KF12", "KF13", "KF14", "KF21"}
 
 DevOutcomes(impl, st, c) ==
     LET t == KFTable(impl, st, c) IN UNION {t[k] : k \in (OpenKF \cap DOMAIN t)}
